@@ -26,6 +26,9 @@ def cases(seed, tier, broken=()):
                             "standardize": bool(rng.random() < 0.3), "use_coslat": bool(rng.random() < 0.3),
                             "sname": str(rng.choice(["S", "sample_dim", "time2"])), "fname": str(rng.choice(["F", "feat", "space"])),
                             "use_pca": bool(rng.random() < 0.5)})
+                # user weights are labelled data too: the same labelled weights with the features of the data stored in another order
+                if rel in ("feature_perm", "transpose", "sample_perm") and cls not in ("multi.CCA",) and (i + r) % 2 == 0:
+                    out[-1]["weights"] = True
     # orientation of intermediate bases (PCA pre-reduction) must not leak into the signs: cross-set models with all PCs kept
     for r in range({"quick": 2, "thorough": 12, "search": 6}[tier]):
         for cls in ("MCA", "CCA", "RDA"):
@@ -40,7 +43,7 @@ def cases(seed, tier, broken=()):
 
 
 def nontrivial_key(case, info):
-    return (case["cls"], case["rel"], case["k"], case["standardize"], case["use_coslat"], case["sname"], case["fname"], case.get("use_pca"))
+    return (case["cls"], case["rel"], case["k"], case["standardize"], case["use_coslat"], case["sname"], case["fname"], case.get("use_pca"), case.get("weights"))
 
 
 def field(rng, n, ny, nx, cplx, off=0.0):
@@ -212,14 +215,21 @@ def run(case):
         for c_ in (cfgA, cfgB):
             if "use_coslat" in c_:
                 c_["use_coslat"] = False
+    wkw = {}
+    if case.get("weights"):
+        wr = np.random.default_rng(case["mseed"] + 77)
+        WX = xr.DataArray(wr.uniform(0.3, 2.5, size=(ny, nx)), dims=("lat", "lon"), coords={"lat": X.lat, "lon": X.lon})
+        WY = xr.DataArray(wr.uniform(0.3, 2.5, size=(ny, 3)), dims=("lat", "lon"), coords={"lat": Y.lat, "lon": Y.lon})
+        wkw = {"weights": (WX, WY) if two else WX}
+        cc += "|weights"
     try:
-        mA, bA = zoo.fit(zc, dataA, dimA, cfgA, rot_cfg=rot)
+        mA, bA = zoo.fit(zc, dataA, dimA, cfgA, rot_cfg=rot, **wkw)
     except Exception as e:  # noqa: BLE001
         if "did not converge" in str(e):
             return {"findings": [], "info": {}}
         raise
     try:
-        mB, bB = zoo.fit(zc, dataB, dimB, cfgB, rot_cfg=rot)
+        mB, bB = zoo.fit(zc, dataB, dimB, cfgB, rot_cfg=rot, **wkw)
     except Exception as e:  # noqa: BLE001
         if "did not converge" in str(e):
             return {"findings": [], "info": {}}
